@@ -95,12 +95,54 @@ def _user(x=None):
   return x
 
 
+class _CtorFailed(Exception):
+  pass
+
+
+FLAKY = [0]
+
+
+@gin.configurable('c18ctor3')
+def _ctor3(tag='?'):
+  # a constructor that fails the first time it runs (a resource not ready yet) and works afterwards
+  FLAKY[0] += 1
+  if FLAKY[0] == 1:
+    raise _CtorFailed('not ready yet')
+  obj = Made(gin.current_scope_str(), len(CTOR_LOG))
+  CTOR_LOG.append(obj)
+  return obj
+
+
+class Fresh:
+  """What the plain producer returns: a new object per evaluation."""
+
+
+@gin.configurable('c18slow')
+def _slow(tag='slow'):
+  # the producer itself calls a configurable, so that other threads get to run (inside Gin's
+  # code) while this evaluation is still in progress
+  PROBES[2]()
+  return Fresh()
+
+
+@gin.configurable('c18user2')
+def _user2(x=None):
+  return x
+
+
+@gin.configurable('c18user3')
+def _user3(x=None):
+  return x
+
+
 CONFIG = '\n'.join(
     [f'c18p{i}.b = {i}' for i in range(N_PROBES)] +
     [f's/c18p0.a = "in-s"', 't/c18p1.a = [1, 2, 3]', 's/t/c18p2.a = {"k": "v"}'] +
     ['k1/gin.singleton.constructor = @c18ctor', 'k2/gin.singleton.constructor = @c18ctor2',
      'c18ctor2.inner = @k1/gin.singleton()'] +
-    [f'{k}/c18user.x = @{k}/gin.singleton()' for k in KEYS]) + '\n'
+    [f'{k}/c18user.x = @{k}/gin.singleton()' for k in KEYS] +
+    ['k3/gin.singleton.constructor = @c18ctor3', 'k3/c18user.x = @k3/gin.singleton()'] +
+    ['c18user2.x = @c18slow()', 'c18mac = @c18slow()', 'c18user3.x = [%c18mac]']) + '\n'
 
 
 class Rec(config_parser.ParserDelegate):
@@ -146,6 +188,23 @@ def do_op(op, reads, uses, yield_now=lambda: None):
       with gin.config_scope(key):
         obj = gin.config.singleton_value(key, _ctor if key == 'k1' else _ctor2)
     uses.append((key, obj))
+  elif kind == 'flaky-single':
+    # a singleton whose constructor raises the first time: that use fails (the caller handles it),
+    # nothing is cached and nothing is left behind; a later use, from any thread, constructs it
+    try:
+      with gin.config_scope('k3'):
+        obj = _user() if op[1] % 2 == 0 else gin.config.singleton_value('k3', _ctor3)
+    except _CtorFailed:
+      uses.append(('k3-failed', None))
+      return
+    uses.append(('k3', obj))
+  elif kind == 'refcall':
+    # one evaluated reference (or macro) shared by all threads: every call evaluates it anew, also
+    # while another thread's evaluation of the very same reference is still in progress
+    obj = _user2() if op[1] % 2 == 0 else _user3()[0]
+    if not isinstance(obj, Fresh):
+      raise Violation('reference-not-evaluated', repr(obj))
+    uses.append(('fresh', obj))
   elif kind == 'bad-single':
     # a use of the singleton API that is rejected (no such singleton and no constructor, or a
     # constructor that is not callable): the caller handles the error and carries on; nothing
@@ -161,6 +220,7 @@ def check_threads(case):
   gin.clear_config()
   gin.parse_config(CONFIG)
   del CTOR_LOG[:]
+  FLAKY[0] = 0
   tape = case['schedule']
   choices = sched.expand_schedule(tape)
   import os  # pylint: disable=g-import-not-at-top
@@ -199,6 +259,16 @@ def check_threads(case):
   for i in range(n):
     for key, obj in uses[i]:
       per_key.setdefault(key, []).append((i, obj))
+  failed = per_key.pop('k3-failed', [])
+  require(len(failed) <= 1, 'singleton-constructor-failure-repeated',
+          lambda: f'{len(failed)} uses failed although the constructor raises only once')
+  if failed and per_key.get('k3'):
+    labels.add('singleton-constructed-after-a-failed-first-use')
+  fresh = per_key.pop('fresh', [])
+  require(len({id(o) for _, o in fresh}) == len(fresh), 'evaluated-reference-result-shared',
+          lambda: f'{len(fresh)} calls received {len({id(o) for _, o in fresh})} distinct objects')
+  if len({i for i, _ in fresh}) >= 2:
+    labels.add('same-reference-evaluated-by-several-threads')
   for key, lst in per_key.items():
     objs = {id(o) for _, o in lst}
     built = [o for o in CTOR_LOG if o.key == key]
@@ -225,6 +295,7 @@ def check_threads(case):
   # ---- equals the sequential run -------------------------------------------------------------
   gin.clear_config()
   gin.parse_config(CONFIG)
+  FLAKY[0] = 0
   for i in range(n):
     for op in case['programs'][i]:
       do_op(op, [], [])
@@ -344,7 +415,9 @@ _op = st.one_of(
     st.just(['read']),
     st.tuples(st.just('single'), st.integers(0, 1), st.integers(0, 1)).map(list),
     st.tuples(st.just('single'), st.just(0), st.integers(0, 1)).map(list),
-    st.tuples(st.just('bad-single'), st.integers(0, 1), st.integers(0, 1)).map(list))
+    st.tuples(st.just('bad-single'), st.integers(0, 1), st.integers(0, 1)).map(list),
+    st.tuples(st.just('refcall'), st.integers(0, 1)).map(list),
+    st.tuples(st.just('flaky-single'), st.integers(0, 1)).map(list))
 
 
 @st.composite
